@@ -28,7 +28,7 @@ EK_NOTE = ('E-K: Kani 0.68/CBMC 6.11 on the compiled code; derivative-cache cont
 ES_TECH = 'symbolic execution by generic instantiation (Sym: DualNum) + SMT (z3 QF_NRA/UF) relational cut-point sweeping; native f64 replay of disagreements'
 
 chk('C01', 'proof',
-    'Partial: (a) E-K: for a polynomial verification EOS (degree <= 3, symbolic small-integer coefficients) every residual getter of State (pressure, entropy, chemical potential, dp/dV, dp/dT, dp/dN, dmu/dN, dmu/dT, dS/dT, d2S/dT2, d2p/dV2) returns exactly the closed-form partial derivative (sign, dual seeding, cache key); '
+    'Partial: (a0) E-M getter map: each of 18 State getters reduces on its MIR to sel(c, ideal, sign*R[key]) with the key, sign and dual part its definition requires (z3, symbolic selector and component indices); (a) E-K: for a polynomial verification EOS (degree <= 3, symbolic small-integer coefficients) every residual getter of State (pressure, entropy, chemical potential, dp/dV, dp/dT, dp/dN, dmu/dN, dmu/dT, dS/dT, d2S/dT2, d2p/dV2) returns exactly the closed-form partial derivative (sign, dual seeding, cache key); '
     '(b) E-S: tracing each shipped model at two witnesses gives the same term DAG, i.e. no state-dependent data is concretised through .re() (the mechanism that makes dual parts wrong); (c) E-S: derivative parts computed through Dual/HyperDual/Dual3<Sym> have the homogeneity degrees implied by C02. '
     'The finite-difference formulation over a state grid is not a solver query and is not claimed.',
     ES_NOTE + EK_NOTE + 'Models whose trace concretises (cross-association Newton iterate, SAFT-VRQ Mie effective diameters, ePC-SAFT T-dependent diameters) are listed outside_reach in scope/es_scope.json unless a native finite-difference replay shows a wrong derivative.',
@@ -49,10 +49,10 @@ chk('C09', 'proof',
     'For ternary systems of PC-SAFT (with association and k_ij), PR, PeTS, gc-PC-SAFT (thorough: polar PC-SAFT, uv-theory, SAFT-VR Mie, ePC-SAFT, PC-SAFT functional) z3 proves for all real states on the traced path: permuted records at permuted amounts give the same contributions and permuted chemical potentials; a zero-amount component changes nothing (vs Components::subset); subset() equals the model built directly from records[idx]; a component entered twice equals once with summed amounts.',
     ES_NOTE + 'Literal constants within 8 ulp are identified before encoding (roundoff of re-ordered f64 preprocessing; counted). Cross-association (iterative) paths are outside reach. Options that only influence f64 helpers (max_eta) are not observed.', ES_TECH, 'DESIGN.md 4/C09', 'E-S')
 chk('C10', 'proof',
-    'Partial: (a) E-K: Total = IdealGas + Residual exactly and each part equals its closed form for one getter per derivative-order arm of the contribution selector; p_ig = rho R T bitwise for all f64 inputs accepted by new_nvt; (b) E-S: ideal mixing A_ig(T,V,N) = sum_i A_ig^pure,i(T,V,N_i) and extensivity of A_ig for Joback and DIPPR(100; thorough 107/127) models. The heat-capacity-correlation clause and zero-density limits: see C13 / DESIGN.md.',
+    'Partial: (a0) E-M getter map: for every State getter with a contribution selector, Total = IdealGas + Residual, IdealGas = the documented ideal part (rho R T, -rho R T / V, rho R, R T / V, 2 rho R T / V^2, R T / N_i delta_ij, or the matching dual part of the ideal-gas Helmholtz energy), Residual = sign*R[key] (z3 on the MIR, symbolic selector); (a) E-K (thorough): Total = IdealGas + Residual exactly and each part equals its closed form for one getter per derivative-order arm of the contribution selector; p_ig = rho R T bitwise for all f64 inputs accepted by new_nvt; (b) E-S: ideal mixing A_ig(T,V,N) = sum_i A_ig^pure,i(T,V,N_i) and extensivity of A_ig for Joback and DIPPR(100; thorough 107/127) models. The heat-capacity-correlation clause and zero-density limits: see C13 / DESIGN.md.',
     ES_NOTE + EK_NOTE + 'In the E-K part the ideal-gas Helmholtz energy of the verification model is a polynomial (the provided ln-based method is over-approximated by CBMC).', ES_TECH + '; Kani/CBMC', 'DESIGN.md 4/C10', 'E-S + E-K')
 chk('C11', 'model_checking',
-    'Histories only: (cache level, in-crate) every history of <= 2 (thorough 3) calls of the five Cache::get_or_insert_with_* methods with symbolic method, symbolic derivative keys and arbitrary f64 values returns bitwise the value of the requested key, also across a clone; (getter level) g after h and g on a clone taken before/after h equal the closed form for 4 (thorough 15) predecessor/getter pairs. Thread schedules and par_pure are NOT covered (Kani does not model concurrency).',
+    'Histories only: (getter map, E-M) no State getter accesses the derivative cache except through the keyed lookup get_or_compute_derivative_residual(key) with the key its definition requires (18 getters, z3 on the MIR); (cache level, in-crate) every history of <= 2 (thorough 3) calls of the five Cache::get_or_insert_with_* methods with symbolic method, symbolic derivative keys and arbitrary f64 values returns bitwise the value of the requested key, also across a clone; (getter level) g after h and g on a clone taken before/after h equal the closed form for 4 (thorough 15) predecessor/getter pairs. Thread schedules and par_pure are NOT covered (Kani does not model concurrency).',
     EK_NOTE + 'Bound: 2 components, history length 2/3.', 'Kani/CBMC bounded model checking with symbolic call histories', 'DESIGN.md 4/C11', 'E-K')
 chk('C13', 'proof',
     'Partial: for every non-electrolyte model, the dual part read by second_virial_coefficient at zero density equals, per contribution, the same dual part of the finite-density code path at rho = 0 (z3, all T > 0 on the path); constants folded at zero density must be finite. Contributions with removable x/rho terms or concretised traces are outside_reach. Temperature derivatives and third virial: thorough / not claimed.',
